@@ -96,6 +96,12 @@ func getPath(v Value, path []int) Value {
 
 // heapLoad reads element idx of row ref as a value of type t.
 func (fc *funcCtx) heapLoad(st *State, t types.Type, ref, idx string) Value {
+	return fc.heapLoadX(st, t, ref, idx, true)
+}
+
+// heapLoadX: assumeInv adds the type invariants of loaded slice headers as facts of the
+// path (never when the index mentions a quantifier-bound variable of a contract).
+func (fc *funcCtx) heapLoadX(st *State, t types.Type, ref, idx string, assumeInv bool) Value {
 	if ss, ok := scalarSort(t); ok {
 		return Sc{app("select", app("select", fc.heap(st, ss), ref), idx), ss}
 	}
@@ -115,9 +121,11 @@ func (fc *funcCtx) heapLoad(st *State, t types.Type, ref, idx string) Value {
 		get := func(k int) string { return app("select", app("select", fc.heap(st, ls[i+k].key), ref), idx) }
 		// a slice header found in storage was created earlier: it points below the allocation counter,
 		// and a header found in storage that predates this call points to storage that predates it
-		st.assume(app("<", get(0), plus(st.allocBase, smtInt(int64(st.allocOff)))))
-		st.assume(implies(app("<", ref, st.entryBase), app("<", get(0), st.entryBase)))
-		st.assume(and(app("<=", "0", get(1)), app("<=", "0", get(2)), app("<=", get(2), get(3)), app("<=", "0", get(0))))
+		if assumeInv {
+			st.assume(app("<", get(0), plus(st.allocBase, smtInt(int64(st.allocOff)))))
+			st.assume(implies(app("<", ref, st.entryBase), app("<", get(0), st.entryBase)))
+			st.assume(and(app("<=", "0", get(1)), app("<=", "0", get(2)), app("<=", get(2), get(3)), app("<=", "0", get(0))))
+		}
 		v = setPath(v, l.path, SliceV{Ref: get(0), Off: get(1), Len: get(2), Cap: get(3), Elem: l.elem})
 		i += 3
 	}
